@@ -20,7 +20,7 @@ RULE = (
 )
 ASSUMPTIONS = [
     "record flags are Python bools; tally_pool is None (not set) or a label (string or integer, possibly falsy: 0, '')",
-    "RAIRE rankings are duplicate-free lists of declared candidates (documented format)",
+    "RAIRE rankings are lists of declared candidates in preference order; a candidate named again further down keeps its first position",
     "the count returned next to the merged list by from_raire is not part of the property and is not judged",
 ]
 
@@ -71,6 +71,9 @@ def strategy(shard):
             c = draw(st.sampled_from(contests))
             bid = draw(st.sampled_from(["99813_1_1", "99813_1_3", "5_2_2", "x"]))
             ranking = draw(st.lists(st.sampled_from(c["cands"]), max_size=len(c["cands"]), unique=True))
+            if ranking and draw(st.integers(0, 6)) == 0:
+                j = draw(st.integers(0, len(ranking) - 1))     # the same candidate ranked again further down
+                ranking = ranking[: j + 1] + [draw(st.sampled_from(ranking[: j + 1]))] + ranking[j + 1:]
             ballots.append([c["id"], bid, ranking])
         return {"kind": "raire", "contests": contests, "ballots": ballots, "file": shard["file"],
                 "phantom": draw(st.booleans()) if not shard["file"] else False}
@@ -175,7 +178,10 @@ def evaluate(case, out):
     model = OrderedDict()
     seen = {}
     for cid, bid, ranking in case["ballots"]:
-        model.setdefault(bid, {})[cid] = {str(c): k + 1 for k, c in enumerate(ranking)}
+        ranks = {}
+        for k, c in enumerate(ranking):
+            ranks.setdefault(str(c), k + 1)   # a candidate named again keeps its first position
+        model.setdefault(bid, {})[cid] = ranks
         seen.setdefault(bid, []).append(cid)
     if any(len(v) >= 2 for v in seen.values()):
         out.nontrivial = True
